@@ -528,6 +528,11 @@ def c07(tier):
     out.append(TS("h_eq_computed", [hr_eq(), assign("DS_r", hrop("hierarchy", "DS_4", "HR_1", "Id_2"))], 3))
     out.append(TS("h_eq_all", [hr_eq(), assign("DS_r", hrop("hierarchy", "DS_4", "HR_1", "Id_2", None, None, "all"))], 3))
     out.append(TS("h_chain_computed", [hr_chain(), assign("DS_r", hrop("hierarchy", "DS_4", "HR_1", "Id_2"))], 3))
+    # chain of two rules under each validation mode (the intermediate item may be absent, present or null) and both outputs
+    for mode in ("non_null", "always_null", "always_zero"):
+        out.append(TS("h_chain_%s_computed" % mode, [hr_chain(), assign("DS_r", hrop("hierarchy", "DS_4", "HR_1", "Id_2", mode))], 3))
+        out.append(TS("h_eq_%s_computed" % mode, [hr_eq(), assign("DS_r", hrop("hierarchy", "DS_4", "HR_1", "Id_2", mode))], 3))
+    out.append(TS("h_chain_always_zero_all", [hr_chain(), assign("DS_r", hrop("hierarchy", "DS_4", "HR_1", "Id_2", "always_zero", None, "all"))], 3))
     out.append(TS("h_minus_computed", [hruleset("HR_1", "Id_2", [("R1", "a", "=", [("+", "b"), ("-", "c")], None, None)]), assign("DS_r", hrop("hierarchy", "DS_4", "HR_1", "Id_2"))], 3))
     return out
 
